@@ -12,6 +12,7 @@ func init() {
 	vHarnesses["H_C07_intBV"] = H_C07_intBV
 	vHarnesses["H_C07_intNL"] = H_C07_intNL
 	vHarnesses["H_C07_pow"] = H_C07_pow
+	vHarnesses["H_C07_mulIContract"] = H_C07_mulIContract
 	vHarnesses["H_C07_float"] = H_C07_float
 	vHarnesses["H_C07_f2i"] = H_C07_f2i
 	vHarnesses["H_C07_cmp"] = H_C07_cmp
@@ -217,13 +218,38 @@ func H_C07_intNL(inst int) {
 	intResult(name, n, err, exact)
 }
 
-// H_C07_pow: X ^ Y on integers. inst selects the exponent (concrete, 0..8); base symbolic.
-// Bound: exponent <= 3 at full width; exponents 4..8 with |base| <= 2^10 (each squaring is a non-linear product).
+// summaryMulI is the contract of mulI (exact product, or int_overflow when it does not fit). H_C07_intNL#0 and
+// H_C07_mulIContract discharge it for all operand pairs; H_C07_pow uses it in place of mulI so that the path
+// conditions of intPow are polynomial bounds instead of wrapped products and divisions.
+func summaryMulI(x, y Integer) (Integer, error) {
+	exact := wMul(wI(int64(x)), wI(int64(y)))
+	if wFits64(exact) {
+		return Integer(wTo64(exact)), nil
+	}
+	return 0, exceptionalValueIntOverflow
+}
+
+// H_C07_mulIContract: mulI and its summary agree on every operand pair (value and error identity).
+func H_C07_mulIContract(inst int) {
+	x, y := Integer(nondetInt64("x")), Integer(nondetInt64("y"))
+	r1, e1 := mulI(x, y)
+	r2, e2 := summaryMulI(x, y)
+	verify(e1 == e2, "mulI contract: error differs")
+	verify(r1 == r2, "mulI contract: value differs")
+}
+
+var c07PowExps = []int64{0, 1, 2, 3, 4, 5, 6, 7, 8, 9, 10, 15, 16, 17, 31, 32, 33, 62, 63, 64, 65, 127}
+
+// H_C07_pow: X ^ Y on integers. inst selects the exponent (concrete, from c07PowExps); base symbolic at full width.
 func H_C07_pow(inst int) {
-	x := nondetInt64("x")
-	e := int64(inst)
-	if e > 3 {
-		assume(bAnd(x >= -1024, x <= 1024))
+	e := c07PowExps[inst]
+	var x int64
+	if e > 17 {
+		// degree > 17 polynomial bounds are out of reach of the solvers at full width: the bases that do not
+		// overflow at these exponents are tiny, so the base is case-split over -16..16 (enumeration, stated as such)
+		x = int64(choice("x", 33)) - 16
+	} else {
+		x = nondetInt64("x")
 	}
 	n, err := eval(atomCaret.Apply(Integer(x), Integer(e)), nil)
 	exact := wI(1)
